@@ -23,7 +23,7 @@ CONFIG = {
              'the failed build (result, tree, invocations); evaluations = injected runs; '
              'distinct_nontrivial = distinct (program shape, prior step kinds, crash label class, '
              'had-cache?, reused-before-crash?)'),
-    'gates': ['ladder_cases', 'many_backup_runs', 'swap_cases', 'swap_cases_rolled_back', 'crash_runs', 'cachewrite_fault_runs', 'crash_after_reuse', 'crash_with_backup'],
+    'gates': ['unrepresentable_target_cases', 'ladder_cases', 'many_backup_runs', 'swap_cases', 'swap_cases_rolled_back', 'crash_runs', 'cachewrite_fault_runs', 'crash_after_reuse', 'crash_with_backup'],
 }
 
 NEXT_KINDS = {'result', 'tree', 'extra_invocation', 'query', 'reused_output_rewritten', 'missing_invocation'}
@@ -34,7 +34,9 @@ def run_shard(sh):
     from .swapcases import run_swap_cases
     run_swap_cases(sh, lambda d: d['kind'] in ROLLBACK_KINDS | NEXT_KINDS | {'foreign_changed', 'foreign_event'},
                    'C02', crash_points=True, nested_cache=sh.idx % 2 == 1)
-    from .laddercases import run_ladder_cases
+    from .laddercases import run_ladder_cases, run_unrepresentable_cases
+    if sh.idx % 8 == 2:
+        run_unrepresentable_cases(sh, lambda d: d['kind'] in ROLLBACK_KINDS | NEXT_KINDS | {'foreign_changed', 'foreign_event'})
     run_ladder_cases(sh, lambda d: d['kind'] in ROLLBACK_KINDS | NEXT_KINDS | {'foreign_changed', 'foreign_event'})
     rng = random.Random((sh.seed * 1000003 + sh.idx) & 0xffffffff)
     if sh.idx % 8 == 0:
